@@ -20,6 +20,7 @@ package stream
 
 //@ func (*Stream).grabFrame
 //@   props C01
+//@   frameprops C17
 //@   requires n_range: 0 <= n && n <= 1048576 + 64
 //@   assigns s.frameBuf
 //@   ensures len: len(result) == n
@@ -47,6 +48,7 @@ package stream
 
 //@ func (*Stream).encryptDataWithAAD
 //@   props C12 C01 C04
+//@   frameprops C17
 //@   requires wf: digestsWF(s)
 //@   requires hdr5: len(frameHeader) == 5
 //@   requires data_bound: len(data) <= 1048576
@@ -75,6 +77,7 @@ package stream
 
 //@ func (*Stream).decryptDataWithAAD
 //@   props C02 C12 C04
+//@   frameprops C17
 //@   requires wf: digestsWF(s)
 //@   requires hdr5: len(frameHeader) == 5
 //@   assigns s.finishedRecvAAD, s.finalSendDigest, s.finalRecvDigest, s.decryptCounter, s.decryptIV, openCount, openNonce, openAAD, openCT, openObj, openPT, openOKCount
@@ -97,12 +100,14 @@ package stream
 
 //@ func (*Stream).writeWithContext
 //@   props C01 C19
+//@   frameprops C17
 //@   assigns wrCount, wrLast, ctxClock, afCtx, afCount
 //@   ensures written: err == nil ==> wrCount == old(wrCount) + 1 && wrLast == old(str(data))
 //@   ensures at_most_one: wrCount <= old(wrCount) + 1 && wrCount >= old(wrCount)
 
 //@ func (*Stream).readWithContext
 //@   props C01 C19
+//@   frameprops C17
 //@   requires reader_is_conn: !typeis(s.reader, "*bytes.Buffer")
 //@   assigns data, rdCount, rdTotal, rdLast, rdFail, ctxClock, afCtx, afCount
 //@   ensures read_ok: err == nil ==> rdCount == old(rdCount) + 1 && rdTotal == old(rdTotal) + len(data) && rdLast == str(data) && rdFail == old(rdFail)
@@ -112,6 +117,8 @@ package stream
 
 //@ func (*Stream).sendMessageWithEnd
 //@   props C01 C12 C04
+//@   frameprops C17
+//@   ensures duplex: [C17] old(s.finalSendDigest) != nil && old(s.finalRecvDigest) != nil ==> s.finalSendDigest == old(s.finalSendDigest) && s.finalRecvDigest == old(s.finalRecvDigest)
 //@   requires wf: digestsWF(s) && buffersSeparate(s)
 //@   requires noalias: ref(data) != ref(s.frameBuf) || ref(data) == 0
 //@   assigns s.frameBuf, elems(s.frameBuf), s.sendDigestWritten, hashWrites, wrCount, wrLast, ctxClock, afCtx, afCount, s.finishedSendAAD, s.finalSendDigest, s.finalRecvDigest, s.encryptCounter, sealCount, sealNonce, sealAAD, sealPT, sealObj, sealOut
@@ -144,6 +151,8 @@ package stream
 
 //@ func (*Stream).ReceiveFrameWithEnd (s, ctx) (result, endFlag, err)
 //@   props C02 C01 C04 C13
+//@   frameprops C17
+//@   ensures duplex: [C17] old(s.finalSendDigest) != nil && old(s.finalRecvDigest) != nil ==> s.finalSendDigest == old(s.finalSendDigest) && s.finalRecvDigest == old(s.finalRecvDigest)
 //@   requires wf: digestsWF(s)
 //@   assigns s.finishedRecvAAD, s.finalSendDigest, s.finalRecvDigest, s.decryptCounter, s.decryptIV, s.recvDigestWritten, openCount, openNonce, openAAD, openCT, openObj, openPT, openOKCount, hashWrites, rdCount, rdTotal, rdLast, rdFail, ctxClock, afCtx, afCount
 //@   let opening = old(sealingOn(s))
@@ -168,6 +177,8 @@ package stream
 
 //@ func (*Stream).ReceiveFrame (s, ctx) (result, err)
 //@   props C02 C01 C04 C13
+//@   frameprops C17
+//@   ensures duplex: [C17] old(s.finalSendDigest) != nil && old(s.finalRecvDigest) != nil ==> s.finalSendDigest == old(s.finalSendDigest) && s.finalRecvDigest == old(s.finalRecvDigest)
 //@   requires wf: digestsWF(s)
 //@   assigns s.finishedRecvAAD, s.finalSendDigest, s.finalRecvDigest, s.decryptCounter, s.decryptIV, s.recvDigestWritten, openCount, openNonce, openAAD, openCT, openObj, openPT, openOKCount, hashWrites, rdCount, rdTotal, rdLast, rdFail, ctxClock, afCtx, afCount
 //@   let opening = old(sealingOn(s))
@@ -190,6 +201,8 @@ package stream
 
 //@ func (*Stream).WriteFrame
 //@   props C01 C12 C04 C09
+//@   frameprops C17
+//@   ensures duplex: [C17] old(s.finalSendDigest) != nil && old(s.finalRecvDigest) != nil ==> s.finalSendDigest == old(s.finalSendDigest) && s.finalRecvDigest == old(s.finalRecvDigest)
 //@   requires wf: digestsWF(s) && buffersSeparate(s)
 //@   requires noalias: ref(data) != ref(s.frameBuf) || ref(data) == 0
 //@   assigns s.frameBuf, elems(s.frameBuf), s.sendDigestWritten, hashWrites, wrCount, wrLast, ctxClock, afCtx, afCount, s.finishedSendAAD, s.finalSendDigest, s.finalRecvDigest, s.encryptCounter, sealCount, sealNonce, sealAAD, sealPT, sealObj, sealOut
@@ -208,6 +221,8 @@ package stream
 
 //@ func (*Stream).ReadFrame (s, ctx) (result, isEOM, err)
 //@   props C02 C01 C13
+//@   frameprops C17
+//@   ensures duplex: [C17] old(s.finalSendDigest) != nil && old(s.finalRecvDigest) != nil ==> s.finalSendDigest == old(s.finalSendDigest) && s.finalRecvDigest == old(s.finalRecvDigest)
 //@   requires wf: digestsWF(s)
 //@   assigns s.finishedRecvAAD, s.finalSendDigest, s.finalRecvDigest, s.decryptCounter, s.decryptIV, s.recvDigestWritten, openCount, openNonce, openAAD, openCT, openObj, openPT, openOKCount, hashWrites, rdCount, rdTotal, rdLast, rdFail, ctxClock, afCtx, afCount
 //@   ensures auth_gate: [C02] err == nil && old(sealingOn(s)) ==> openOKCount == old(openOKCount) + 1 && openObj == s.gcm && str(result) == openPT
@@ -221,8 +236,11 @@ package stream
 
 //@ func (*Stream).readNextFrame
 //@   props C01 C02 C13
+//@   frameprops C17
+//@   ensures duplex: [C17] old(s.finalSendDigest) != nil && old(s.finalRecvDigest) != nil ==> s.finalSendDigest == old(s.finalSendDigest) && s.finalRecvDigest == old(s.finalRecvDigest)
 //@   requires wf: digestsWF(s)
 //@   assigns s.receiveBuffer, elems(s.receiveBuffer), s.totalMsgBytes, s.finishedRecvAAD, s.finalSendDigest, s.finalRecvDigest, s.decryptCounter, s.decryptIV, s.recvDigestWritten, openCount, openNonce, openAAD, openCT, openObj, openPT, openOKCount, hashWrites, rdCount, rdTotal, rdLast, rdFail, ctxClock, afCtx, afCount
+//@   loop 1 invariant duplex: [C17] old(s.finalSendDigest) != nil && old(s.finalRecvDigest) != nil ==> s.finalSendDigest == old(s.finalSendDigest) && s.finalRecvDigest == old(s.finalRecvDigest)
 //@   loop 1 invariant wf: digestsWF(s) && len(s.receiveBuffer) >= old(len(s.receiveBuffer)) && openOKCount >= old(openOKCount)
 //@   loop 1 invariant buf_own: ref(s.receiveBuffer) == old(ref(s.receiveBuffer)) || fresh(s.receiveBuffer)
 //@   ensures ok: err == nil ==> s.totalMsgBytes == len(s.receiveBuffer) && len(s.receiveBuffer) >= old(len(s.receiveBuffer))
@@ -231,8 +249,11 @@ package stream
 
 //@ func (*Stream).ReceiveCompleteMessage (s, ctx) (result, err)
 //@   props C01 C02 C13
+//@   frameprops C17
+//@   ensures duplex: [C17] old(s.finalSendDigest) != nil && old(s.finalRecvDigest) != nil ==> s.finalSendDigest == old(s.finalSendDigest) && s.finalRecvDigest == old(s.finalRecvDigest)
 //@   requires wf: digestsWF(s)
 //@   assigns s.finishedRecvAAD, s.finalSendDigest, s.finalRecvDigest, s.decryptCounter, s.decryptIV, s.recvDigestWritten, openCount, openNonce, openAAD, openCT, openObj, openPT, openOKCount, hashWrites, rdCount, rdTotal, rdLast, rdFail, ctxClock, afCtx, afCount
+//@   loop 1 invariant duplex: [C17] old(s.finalSendDigest) != nil && old(s.finalRecvDigest) != nil ==> s.finalSendDigest == old(s.finalSendDigest) && s.finalRecvDigest == old(s.finalRecvDigest)
 //@   loop 1 invariant wf: digestsWF(s) && openOKCount >= old(openOKCount) && rdTotal >= old(rdTotal) + len(completeMessage)
 //@   loop 1 invariant msg_own: completeMessage == nil || fresh(completeMessage)
 //@   ensures no_partial: [C02] err != nil ==> result == nil
@@ -242,6 +263,8 @@ package stream
 
 //@ func (*Stream).flushPartialFrame
 //@   props C01
+//@   frameprops C17
+//@   ensures duplex: [C17] old(s.finalSendDigest) != nil && old(s.finalRecvDigest) != nil ==> s.finalSendDigest == old(s.finalSendDigest) && s.finalRecvDigest == old(s.finalRecvDigest)
 //@   requires wf: digestsWF(s) && buffersSeparate(s)
 //@   assigns s.sendBuffer, s.frameBuf, elems(s.frameBuf), s.sendDigestWritten, hashWrites, wrCount, wrLast, ctxClock, afCtx, afCount, s.finishedSendAAD, s.finalSendDigest, s.finalRecvDigest, s.encryptCounter, sealCount, sealNonce, sealAAD, sealPT, sealObj, sealOut
 //@   ensures empty_noop: old(len(s.sendBuffer)) == 0 ==> err == nil && wrCount == old(wrCount)
@@ -251,6 +274,8 @@ package stream
 
 //@ func (*Stream).WriteMessage
 //@   props C01
+//@   frameprops C17
+//@   ensures duplex: [C17] old(s.finalSendDigest) != nil && old(s.finalRecvDigest) != nil ==> s.finalSendDigest == old(s.finalSendDigest) && s.finalRecvDigest == old(s.finalRecvDigest)
 //@   requires wf: digestsWF(s) && buffersSeparate(s)
 //@   assigns s.sendBuffer, elems(s.sendBuffer), s.frameBuf, elems(s.frameBuf), s.sendDigestWritten, hashWrites, wrCount, wrLast, ctxClock, afCtx, afCount, s.finishedSendAAD, s.finalSendDigest, s.finalRecvDigest, s.encryptCounter, sealCount, sealNonce, sealAAD, sealPT, sealObj, sealOut
 //@   ensures after_eom: old(s.sendEOM) ==> err != nil && wrCount == old(wrCount) && s.sendBuffer == old(s.sendBuffer)
@@ -260,6 +285,8 @@ package stream
 
 //@ func (*Stream).EndMessage
 //@   props C01
+//@   frameprops C17
+//@   ensures duplex: [C17] old(s.finalSendDigest) != nil && old(s.finalRecvDigest) != nil ==> s.finalSendDigest == old(s.finalSendDigest) && s.finalRecvDigest == old(s.finalRecvDigest)
 //@   requires wf: digestsWF(s) && buffersSeparate(s)
 //@   assigns s.sendEOM, s.sendBuffer, s.frameBuf, elems(s.frameBuf), s.sendDigestWritten, hashWrites, wrCount, wrLast, ctxClock, afCtx, afCount, s.finishedSendAAD, s.finalSendDigest, s.finalRecvDigest, s.encryptCounter, sealCount, sealNonce, sealAAD, sealPT, sealObj, sealOut
 //@   ensures twice: old(s.sendEOM) ==> err != nil && wrCount == old(wrCount)
@@ -268,11 +295,14 @@ package stream
 
 //@ func (*Stream).StartMessage
 //@   props C01
+//@   frameprops C17
 //@   assigns s.sendEOM, s.sendBuffer
 //@   ensures reset: !s.sendEOM && s.sendBuffer == nil
 
 //@ func (*Stream).StartMessageRead
 //@   props C01 C02 C13
+//@   frameprops C17
+//@   ensures duplex: [C17] old(s.finalSendDigest) != nil && old(s.finalRecvDigest) != nil ==> s.finalSendDigest == old(s.finalSendDigest) && s.finalRecvDigest == old(s.finalRecvDigest)
 //@   requires wf: streamInv(s)
 //@   assigns s.inMessage, s.bytesRead, s.receiveBuffer, elems(s.receiveBuffer), s.totalMsgBytes, s.finishedRecvAAD, s.finalSendDigest, s.finalRecvDigest, s.decryptCounter, s.decryptIV, s.recvDigestWritten, openCount, openNonce, openAAD, openCT, openObj, openPT, openOKCount, hashWrites, rdCount, rdTotal, rdLast, rdFail, ctxClock, afCtx, afCount
 //@   ensures busy: old(s.inMessage) ==> err != nil && rdCount == old(rdCount)
@@ -282,6 +312,8 @@ package stream
 
 //@ func (*Stream).ReadMessageBytes (s, ctx, data) (n, err)
 //@   props C01 C02 C13
+//@   frameprops C17
+//@   ensures duplex: [C17] old(s.finalSendDigest) != nil && old(s.finalRecvDigest) != nil ==> s.finalSendDigest == old(s.finalSendDigest) && s.finalRecvDigest == old(s.finalRecvDigest)
 //@   requires wf: streamInv(s)
 //@   requires noalias: ref(data) != ref(s.receiveBuffer) || ref(data) == 0
 //@   assigns data, s.bytesRead, s.receiveBuffer, elems(s.receiveBuffer), s.totalMsgBytes, s.finishedRecvAAD, s.finalSendDigest, s.finalRecvDigest, s.decryptCounter, s.decryptIV, s.recvDigestWritten, openCount, openNonce, openAAD, openCT, openObj, openPT, openOKCount, hashWrites, rdCount, rdTotal, rdLast, rdFail, ctxClock, afCtx, afCount
@@ -292,6 +324,7 @@ package stream
 
 //@ func (*Stream).EndMessageRead
 //@   props C01
+//@   frameprops C17
 //@   assigns s.inMessage, s.receiveBuffer, s.bytesRead, s.totalMsgBytes
 //@   ensures idle: !old(s.inMessage) ==> err != nil
 //@   ensures unconsumed: old(s.inMessage) && old(s.bytesRead) < old(s.totalMsgBytes) ==> err != nil && s.inMessage && s.bytesRead == old(s.bytesRead)
